@@ -68,6 +68,9 @@ type opT struct {
 	Auth  int      `json:"auth"`
 	Bad   bool     `json:"bad"`
 	Kss   [][]uint32 `json:"kss"`
+	// open_streamer: open from the very same key slice (same backing array) as streamer
+	// Share was opened from — a caller re-using one []ChannelKey for several streamers
+	Share int `json:"share"`
 }
 
 type tcase struct {
@@ -127,6 +130,12 @@ type sstate struct {
 	lastProbe int64
 	parity    int // parity shown by the last received probe
 	expParity int
+	confirmed int // expParity when a barrier last confirmed the active subscription
+	// the slice handed to NewStreamer (possibly shared with other streamers), a copy of
+	// its content at that time, and the streamer that first used it
+	keys     []cesium.ChannelKey
+	keysCopy []cesium.ChannelKey
+	root     int
 	paused    bool
 	closeReq  bool
 	outClosed bool
@@ -237,6 +246,7 @@ func (cs *caseState) consume(s *sstate) {
 			probeN   int64
 			probePar int
 			mixed    bool
+			bothProbes bool
 		)
 		for k, ser := range res.Frame.Entries() {
 			if ser.Len() != 1 {
@@ -244,6 +254,9 @@ func (cs *caseState) consume(s *sstate) {
 				continue
 			}
 			if k == probeA || k == probeB {
+				if isProbe {
+					bothProbes = true
+				}
 				isProbe = true
 				probeN = -telem.ValueAt[int64](ser, 0)
 				if k == probeB {
@@ -285,6 +298,16 @@ func (cs *caseState) consume(s *sstate) {
 			if probeN > s.lastProbe {
 				s.lastProbe = probeN
 				s.parity = probePar
+				// Every key set the harness hands to a streamer carries exactly one of the two
+				// probe keys, the other one only after a re-subscription request of THIS
+				// streamer. Both at once, or the other one while no request is outstanding,
+				// means the streamer's subscription changed without a request of its own.
+				if bothProbes || (s.confirmed == s.expParity && probePar != s.expParity%2) {
+					if cs.anomaly == "" {
+						cs.anomaly = fmt.Sprintf("streamer %d: its subscription changed although it has no re-subscription request outstanding (probe frame arrived on keys %v; streamers opened from the same key slice: root %d)", s.id, res.Frame.KeysSlice(), s.root)
+					}
+					s.parity = s.expParity % 2 // let the run go on; the anomaly is reported
+				}
 			}
 		} else {
 			if it.Keys == nil {
@@ -373,6 +396,13 @@ func (cs *caseState) syncBarrier() string {
 		cs.mu.Unlock()
 		cs.syncs++
 		if all {
+			cs.mu.Lock()
+			for _, id := range cs.order {
+				if s := cs.strs[id]; ready(s) {
+					s.confirmed = s.expParity
+				}
+			}
+			cs.mu.Unlock()
 			return ""
 		}
 		time.Sleep(100 * time.Microsecond)
@@ -639,7 +669,14 @@ func runCase(c tcase) (res result) {
 				return opRes{E: "skip"}
 			}
 			return run(fmt.Sprintf("op %d NewStreamer+Flow", i), func() opRes {
-				st, err := db.NewStreamer(ctx, cesium.StreamerConfig{Channels: toKeys(o.Keys, 0)})
+				keys, root := toKeys(o.Keys, 0), o.S
+				if o.Share > 0 {
+					if sh, ok := cs.strs[o.Share]; ok && sh.keys != nil {
+						keys, root = sh.keys, sh.root // the same slice value, same backing array
+					}
+				}
+				keysCopy := append([]cesium.ChannelKey{}, keys...)
+				st, err := db.NewStreamer(ctx, cesium.StreamerConfig{Channels: keys})
 				if err != nil {
 					return opRes{E: errClass(err)}
 				}
@@ -649,7 +686,8 @@ func runCase(c tcase) (res result) {
 				st.OutTo(out)
 				sctx, cancel := signal.Isolated()
 				st.Flow(sctx, confluence.CloseOutputInletsOnExit())
-				s := &sstate{id: o.S, in: in, out: out, cancel: cancel, connected: true, items: []item{}}
+				s := &sstate{id: o.S, in: in, out: out, cancel: cancel, connected: true, items: []item{},
+					keys: keys, keysCopy: keysCopy, root: root}
 				cs.mu.Lock()
 				cs.strs[o.S] = s
 				cs.order = append(cs.order, o.S)
@@ -866,6 +904,37 @@ func runCase(c tcase) (res result) {
 			return opRes{}
 		}))
 	}
+	// The key slices handed to NewStreamer belong to the caller: cesium must not have written
+	// to them. Checked only for slices all of whose streamers have exited (their outlets
+	// are closed, which orders everything they did before this read).
+	cs.mu.Lock()
+	groupDone := map[int]bool{}
+	for _, s := range cs.strs {
+		if s.keys == nil {
+			continue
+		}
+		if _, seen := groupDone[s.root]; !seen {
+			groupDone[s.root] = true
+		}
+		if !s.outClosed {
+			groupDone[s.root] = false
+		}
+	}
+	for _, id := range cs.order {
+		s := cs.strs[id]
+		if s.keys == nil || !groupDone[s.root] || res.Anomaly != nil {
+			continue
+		}
+		same := len(s.keys) == len(s.keysCopy)
+		for j := 0; same && j < len(s.keys); j++ {
+			same = s.keys[j] == s.keysCopy[j]
+		}
+		if !same {
+			a := fmt.Sprintf("the key slice streamer %d was opened from (first used by streamer %d) was modified by cesium: %v, was %v", s.id, s.root, s.keys, s.keysCopy)
+			res.Anomaly = &a
+		}
+	}
+	cs.mu.Unlock()
 	for _, s := range cs.strs {
 		s.cancel()
 	}
